@@ -240,7 +240,7 @@ func piecesWorker(req N) (resp N) {
 	ctx, cancel := context.WithTimeout(context.Background(), 5*time.Second)
 	defer cancel()
 	vos := ros.NewVirtualOS(ctx, ros.WithStdout(stdout))
-	cfg := risor.NewConfig(risor.WithOS(vos))
+	cfg := risor.NewConfig(risor.WithOS(vos), risor.WithGlobal("hostv", 10))
 	c, err := compiler.New(cfg.CompilerOpts()...)
 	if err != nil {
 		return N{"k": "nocompiler", "msg": err.Error()}
